@@ -259,6 +259,25 @@ def run(ctx) -> int:
     count = {"kinds": 0, "conservative": 0, "definitions": 0, "routes": 0, "histories": 48}
 
     def probe(r, scale):
+        # the hand-made corner documents first: kinds under each standard configuration, the extensions' conservativity on their
+        # trigger-free forms, the definition options
+        for cd in docs.corner_docs():
+            for ci in range(len(configs.STANDARD)):
+                cfg = dict(configs.STANDARD[ci], ruler2_off=[])
+                count["kinds"] += 1
+                d = part1(cfg, cd)
+                if d:
+                    return {"config": cfg, "src": cd, "part": 1, **d}
+            cfg = dict(configs.STANDARD[2], ruler2_off=[])
+            src2 = cd.replace("|", "/").replace("~~", "~")
+            count["conservative"] += 1
+            d = part2(cfg, src2)
+            if d:
+                return {"config": cfg, "src": src2, "part": 2, **d}
+            count["definitions"] += 1
+            d = part3(cfg, cd)
+            if d:
+                return {"config": cfg, "src": cd, "part": 3, **d}
         for k in range(int(700 * scale)):
             cfg = dict(configs.random_config(r), ruler2_off=[])
             src = docs.random_doc(r)
